@@ -320,7 +320,8 @@ func (df *DataFile) readToBuf(blockID uint32, offset uint32, buf *bytebufferpool
 		}
 
 		// 对当前 chunk 解码
-		data, chunkType, err := DecodeChunk(block[offset:])
+		// 只解码文件实际包含的字节: 缓冲区中超出文件末尾的部分是残留数据, 不能当作 chunk 的内容
+		data, chunkType, err := DecodeChunk(block[offset:size])
 		if err != nil {
 			return err
 		}
@@ -419,7 +420,8 @@ func (reader *DataReader) next() ([]byte, *DataPos, error) {
 		}
 
 		// 对当前 chunk 解码
-		data, chunkType, err := DecodeChunk(reader.blockBuf[reader.offset:])
+		// 只解码文件实际包含的字节: 缓冲区中超出文件末尾的部分是残留数据, 不能当作 chunk 的内容
+		data, chunkType, err := DecodeChunk(reader.blockBuf[reader.offset:size])
 		if err != nil {
 			return nil, nil, err
 		}
